@@ -91,6 +91,18 @@ def t_job(target, mode, quick, thorough, name):
     return dict(name=name, engine_tag="T prop=C12 mode=" + ("A" if mode == "A" else "B"), target=target, instances=instances, cmd=cmd, replay=replay,
                 timeout=dict(quick=900, thorough=5400), replay_timeout=600)
 
+# ---------------------------------------------------------------- single-binary rapidcheck engines (M, R, S, Q, C8)
+def rc_job(target, tag, quick, thorough, name=None, extra=()):
+    """quick/thorough: (shards, cases, size)"""
+    def instances(tier):
+        sh, n, size = quick if tier == "quick" else thorough
+        return [dict(label="%s#%d" % (tag, i), cases=n, size=size) for i in range(sh)]
+    def cmd(exe, prop, tier, seed, inst, out, rundir, excluded):
+        return [exe, "--prop", prop, "--faildir", rundir, "--out", out] + list(extra), rc_env(seed, inst["cases"], inst["size"])
+    def replay(exe, prop, path):
+        return [exe, "--prop", prop, "--replay", path, "--quiet"]
+    return dict(name=name or tag, engine_tag=tag, target=target, instances=instances, cmd=cmd, replay=replay, timeout=dict(quick=900, thorough=5400))
+
 Q = 6000
 PROPS = {
     "C01": dict(jobs=W([("plain", Q, 50), ("all", Q, 50)], [("plain", 40000, 90, 6), ("all", 40000, 90, 6), ("overlap", 40000, 90, 4)], [("plain", 20000, 70, 2)], fuzz=("all", 4000, 120000)),
@@ -144,6 +156,14 @@ PROPS = {
                      "same sequence or mock function and a multi-section operation is interleaved with another thread's critical section; distinct = FNV-1a(program, mode).",
                 assumptions=["caller obligations (no destruction while another thread uses the object; no reporter installation during use) are respected by construction",
                              "liveness beyond lock-leak detection is not checked; a stuck run ends in the job time budget and is reported as inconclusive"]),
+    "C18": dict(jobs=[rc_job("s_rc", "S", (2, 6000, 60), (12, 60000, 100)), rc_job("s_rc_gcc", "S", (0, 0, 0), (4, 30000, 100), name="S(g++)")],
+                rule="engine S: rapidcheck picks one of 124 value types (scalars, strings, pointer-like and null-comparable values, opaque structs of 1..40 bytes, "
+                     "types with printer<T> / operator<<, pairs, tuples, collections and C arrays nested to depth 3), a value decoded from a tape, a prior stream state "
+                     "(base x fill x width x adjust x showbase x uppercase x boolalpha) and a mode (print / no-match report / expected value / trace / return); an independent "
+                     "renderer gives the expected text and the restoration of flags, fill and width is checked directly and by a probe. Plus the exhaustive scope opaque<1..40> x "
+                     "1152 states x 2 byte patterns. non-trivial = prior state differs from default in >= 2 dimensions, or value depth >= 2, or opaque size > 8 and not a multiple of 16; distinct by rendered case.",
+                assumptions=["with a prior width > 0 the first token of a composite / a null may be padded and the width need not be restored there (property speaks of leaves and of streamable / hex-dumped values)",
+                             "a setw() inside a user operator<< may pad on either side with blanks; after a user printer<T> only the text is asserted"]),
 }
 for _p in PROPS.values():
     _p.setdefault("parallel", dict(quick=8, thorough=16))
